@@ -97,7 +97,12 @@ claim("C01", "other",
       "Mechanism contracts discharged without bound: wrap_paragraph_lines alters a word only by the protective backslash and "
       "only at the start of a wrapped line; the hard-break wrapper keeps number and order of hard breaks and rejoins with "
       "backslash-newline; line_wrap_* compose hard-break and tag handling in the documented order; heap-model frame of the "
-      "cleanup rewrite. The statement parse(format(x)) ~ parse(x) is explored on a generated document space with flowmark's "
+      "cleanup rewrite; render_list renders item i under exactly its own marker with a continuation indent as wide as that "
+      "marker; contract R on the renderer's block methods (paragraph: one wrapper call with the prefixes in force; heading level "
+      "and separator; rule, HTML block, blank line, link definition, table lines and escaped cell pipes, footnote / alert / "
+      "quote containers: emitted under the container prefixes, first-line prefix consumed); render_literal / render_line_break "
+      "keep or drop an escape exactly as the escape context says (only a hard break resets it); _render_code emits every code "
+      "line verbatim. The statement parse(format(x)) ~ parse(x) is explored on a generated document space with flowmark's "
       "own parser as reader; nine defects found this way were repaired (fix: commits), eight are recorded known findings "
       "whose witnesses are replayed on every run.", _PIPE_NOTE,
       "contract-based deductive verification of the wrapping mechanisms (AST->VC + z3); bounded re-parse equivalence as stand-in",
@@ -112,28 +117,45 @@ claim("C02", "other",
 claim("C03", "other",
       "Discharged: wrap_paragraph_lines and split_sentences_regex depend on the text only through the whitespace-collapsed "
       "token sequence; the sentence wrapper's no-wrap branch collapses whitespace runs (a defect found by this clause was "
-      "repaired). Re-layout invariance and the two-pass relation are explored on the document space.", _PIPE_NOTE,
+      "repaired); the word splitter is handed the whitespace-collapsed text; the tag-newline wrapper cuts a paragraph into "
+      "segments exactly before/after tag lines (and block content when the paragraph has tag lines), nowhere else; a soft "
+      "break does not reset the escape context. Re-layout invariance and the two-pass relation are explored on the document space.", _PIPE_NOTE,
       "contract-based deductive verification of the wrappers (AST->VC + z3); bounded re-layout / two-pass exploration as stand-in",
       "DESIGN.md §3 C03")
 claim("C04", "other",
       "Discharged: fill_markdown applies cleanups / smart quotes / ellipses only through doc_cleanups, "
       "rewrite_text_across_inlines(smart_quotes) and rewrite_text_content(ellipses, coalesce_lines=True), each guarded by its own "
-      "option, in that order, between parse and render (pipeline clause). The literal-span sequence comparison is the bounded "
+      "option, in that order, between parse and render (pipeline clause); transform_tree never descends into code / HTML / "
+      "link-definition nodes; _collect_inline_segments hands out only RawText nodes as mutable; the two rewrite transformers "
+      "store only into RawText nodes (across inlines: exactly the slice of the length-preserving rewrite at the node's own "
+      "prefix-sum offset); _render_code emits every code line verbatim behind the continuation prefix inside a fence that is a "
+      "run of the fence character at least as long as the original and as _min_fence_length demands, with the info string; "
+      "code spans, autolinks, URLs, inline HTML, HTML blocks, link definitions and footnote labels are copied from the element's "
+      "fields; preprocess_tag_block_spacing inserts only blank lines and none inside fenced code. The literal-span sequence comparison is the bounded "
       "layer; two defects found by it (code re-split at Unicode separators, blank line inserted inside fenced code) were repaired.",
-      _PIPE_NOTE + " _render_code, render_code_span and the rewrite functions are not yet under character-level contracts.",
+      _PIPE_NOTE + " _min_fence_length (regex scan) is an assumed contract checked against an independent spec on a function "
+      "sweep; code-span delimiter length, link destinations / titles (render_link, render_image, title quotes) and "
+      "coalesce_raw_text_nodes are not under contract.",
       "contract-based deductive verification of the wiring (AST->VC + z3); bounded literal-span comparison as stand-in",
       "DESIGN.md §3 C04")
 claim("C06", "other",
       "Discharged: every output line of the wrappers is a join of whole tokens of the splitter (W lossless clauses), so a token "
-      "is never broken; the line wrappers apply tag-newline handling inside hard-break handling. Atomicity of constructs, spacing "
+      "is never broken; the line wrappers apply tag-newline handling inside hard-break handling; the tag-newline wrapper's "
+      "segments tile the paragraph's lines and every position next to a tag line is a boundary (the newline is kept); "
+      "_fix_closing_tag_spacing only inserts blank lines before closing tags after block content and touches no other line "
+      "(that it strips a closing tag's indentation is the recorded finding, residual proved); preprocess_tag_block_spacing puts "
+      "a blank line wherever a tag-only line meets block content outside fenced code (spec fence state) and nowhere else. Atomicity of constructs, spacing "
       "and tag-line layout are explored on paragraphs with tags at widths 1..20 and tag-delimited blocks.",
-      _PIPE_NOTE + " The atomic-construct regexes are uninterpreted; tag_handling's segmentation is not yet under contract.",
+      _PIPE_NOTE + " The atomic-construct regexes, the line predicates (tag-only, block content) and the adjacent-tag "
+      "normalisation are uninterpreted / bounded only.",
       "contract-based deductive verification of token-preserving wrapping (AST->VC + z3); bounded atomicity exploration as stand-in",
       "DESIGN.md §3 C06")
 claim("C12", "other",
       "Discharged: every subscript-in-range, not-None, assert and pop-from-non-empty obligation and every loop variant of the "
       "functions of the formatting path that are under contract (wrap_paragraph_lines, split_sentences_regex, the sentence and "
-      "hard-break wrappers, fill_text, split_frontmatter, list rendering); render_list_item's separator carries no trailing "
+      "hard-break wrappers, fill_text, split_frontmatter, the renderer's block and inline methods, doc_transforms, the tag "
+      "handling functions under contract); ST: no regex of the package has a nested unbounded quantifier (pumped input replayed "
+      "when one does); render_list_item's separator carries no trailing "
       "blanks. Termination/time of Marko and the regex engines and well-formedness of whole outputs are explored under a "
       "watchdog on Unicode soup and pumped families.", _PIPE_NOTE,
       "contract-based deductive verification: no-raise and variant obligations (AST->VC + z3); bounded fuzzing under a watchdog as stand-in",
@@ -145,8 +167,9 @@ claim("C08", "other",
       "via rewrite_text_across_inlines(smart_quotes), guarded by its option. The lift to whole strings/documents uses the "
       "unchecked congruence lemma and is checked exhaustively on all strings up to length 4/5 over a 13-symbol alphabet and "
       "on the document space (option on vs off).",
-      "re.sub decomposition and L-congruence(Q) assumed; rewrite_text_across_inlines' position mapping and "
-      "_collect_inline_segments are not under contract (covered by the document-level differential only).",
+      "re.sub decomposition and L-congruence(Q) assumed; the mapping back into the tree is discharged "
+      "(_collect_inline_segments, rewrite_text_across_inlines transformer, transform_tree); coalesce_raw_text_nodes and the "
+      "apostrophe loop of _apply_smart_quotes_to_text are bounded only.",
       "contract-based deductive verification of the rewrite callback (AST->VC + z3, group structure from re._parser); "
       "exhaustive short-string and document differential as bounded stand-in", "DESIGN.md §3 C08")
 claim("C09", "other",
@@ -155,22 +178,26 @@ claim("C09", "other",
       "(all combinations of the uninterpreted \\w / end-of-text tests); fill_markdown applies it only via "
       "rewrite_text_content(ellipses, coalesce_lines=True), guarded by its option. Idempotence of the rewrite cannot be decided "
       "by a contract and is checked exhaustively on short strings.",
-      "re.sub decomposition and L-congruence(D) assumed; rewrite_text_content / coalesce_raw_text_nodes not under contract "
-      "(document-level differential only); one known finding (ellipsis at a text-node boundary) shared with C02.",
+      "re.sub decomposition and L-congruence(D) assumed; rewrite_text_content's transformer and transform_tree are under "
+      "contract, coalesce_raw_text_nodes is not (document-level differential only); one known finding (ellipsis at a text-node boundary) shared with C02.",
       "contract-based deductive verification of the rewrite callback (AST->VC + z3); exhaustive short-string idempotence and "
       "document differential as bounded stand-in", "DESIGN.md §3 C09")
 claim("C17", "proof",
       "Discharged on the real resolver code: resolve returns a strictly sorted (hence duplicate-free) list (loop invariants "
-      "'every element is in seen' and an injective position map, list.sort as a sorted permutation); _walk_directory yields a "
+      "'every element is in seen', 'every element is a Path.resolve() result' (canonical: no file under two spellings) and an "
+      "injective position map, list.sort as a sorted permutation); _expand_glob yields only files that match an include "
+      "pattern, are within the size limit, are not matched by the tool ignore file and have no ancestor directory excluded by "
+      "name or by relative path; _should_include_explicit never bypasses the size limit and bypasses the exclusions exactly "
+      "when force_exclude is off; _walk_directory yields a "
       "file iff it is not a symbolic link, matches an include pattern, is within the size limit, is not git-ignored and not "
       "matched by the tool ignore file (path relative to the walk root), prunes into the very list object os.walk yielded and "
       "calls os.walk without followlinks; _is_dir_excluded <=> exclude/gitignore/tool-ignore match of name/ or path/; "
       "_exceeds_max_size (0 = unlimited, strictly larger, unreadable never excludes); cli._resolve_files passes every "
-      "file-discovery option under its own name. Three defects found here were repaired (symlinked files, glob filtering, "
-      ".flowmarkignore path patterns).",
+      "file-discovery option under its own name. Four defects found here were repaired (symlinked files, glob filtering, "
+      ".flowmarkignore path patterns, multi-segment exclusions for globs).",
       "pathspec.match_file / check_file, os.walk (top-down, descends into the names left in dirnames, no symlinked dirs), "
-      "Path.resolve/is_file/stat, list.sort by assumed contracts; _should_include_explicit, _expand_glob and the ignore-file "
-      "loaders are covered only by the bounded reference walk; 'no file is missed / order of listing irrelevant' follows from "
+      "Path.resolve/is_file/stat/glob, list.sort by assumed contracts; completeness of _expand_glob (nothing that passes is "
+      "dropped), the glob-root computation and the ignore-file loaders are covered only by the bounded reference walk; 'no file is missed / order of listing irrelevant' follows from "
       "the filter iff plus sortedness and is explored on generated trees.",
       "contract-based deductive verification: AST->VC generation (loop invariants, ghost position map, generator yield log) + z3; "
       "bounded comparison with a reference walk on generated trees", "DESIGN.md §3 C17")
